@@ -27,7 +27,46 @@ struct Case {
     /// an older connection of the SAME endpoint is already registered when the gated one is admitted
     #[serde(default)]
     dup: bool,
+    /// every disconnect request is issued (from its own OS thread) while another OS thread holds the registry's write
+    /// lock for the endpoint's shard -- what a concurrent register/unregister of any endpoint in that shard holds; the
+    /// lock is released once the request has returned or has been blocked for a while (seeded change C08-seed81:
+    /// a non-blocking lookup that reads "locked" as "not registered")
+    #[serde(default)]
+    contended: bool,
     events: Vec<Ev>,
+}
+
+/// `Clients::disconnect` under contention: forced schedule lock-held -> request issued -> lock released.
+fn contended_disconnect(clients: &iroh_relay::server::clients::Clients, id: iroh_base::EndpointId, conn: Option<iroh_relay::server::ConnectionId>) -> bool {
+    use std::sync::atomic::{AtomicBool, Ordering::SeqCst};
+    use std::sync::{Arc, mpsc};
+    let (tx_locked, rx_locked) = mpsc::channel::<()>();
+    let (tx_release, rx_release) = mpsc::channel::<()>();
+    let c1 = clients.clone();
+    let holder = std::thread::spawn(move || {
+        c1.verif_with_entry_locked(id, || {
+            tx_locked.send(()).unwrap();
+            let _ = rx_release.recv();
+        })
+    });
+    rx_locked.recv().unwrap();
+    let started = Arc::new(AtomicBool::new(false));
+    let (c2, st) = (clients.clone(), started.clone());
+    let req = std::thread::spawn(move || {
+        st.store(true, SeqCst);
+        c2.disconnect(id, conn)
+    });
+    let t0 = std::time::Instant::now();
+    while !started.load(SeqCst) && t0.elapsed() < std::time::Duration::from_secs(5) {
+        std::thread::sleep(std::time::Duration::from_millis(1));
+    }
+    let t1 = std::time::Instant::now();
+    while !req.is_finished() && t1.elapsed() < std::time::Duration::from_millis(25) {
+        std::thread::sleep(std::time::Duration::from_millis(1));
+    }
+    tx_release.send(()).unwrap();
+    holder.join().unwrap();
+    req.join().unwrap()
 }
 
 struct Out {
@@ -96,7 +135,8 @@ fn run_case(case: &Case) -> Out {
                     }
                 }
                 Ev::DiscConn | Ev::DiscId => {
-                    let found = service.clients().disconnect(id, if *ev == Ev::DiscConn { Some(conn) } else { None });
+                    let sel = if *ev == Ev::DiscConn { Some(conn) } else { None };
+                    let found = if case.contended { contended_disconnect(service.clients(), id, sel) } else { service.clients().disconnect(id, sel) };
                     request_results.push(found);
                     if *ev == Ev::DiscId {
                         by_id_requests += 1;
@@ -201,7 +241,7 @@ fn run_case(case: &Case) -> Out {
 fn main() {
     vh_hooks::install();
     let ctx = Ctx::from_args("C08", Level::ModelChecking);
-    ctx.set_rule("every sequence of {release admission gate, settle (run relay to quiescence), disconnect by connection id, disconnect by endpoint id} with exactly one release, <=2 requests and <=2 settles, with and without a bystander endpoint; after the sequence the gate is released if it was not, the relay is settled and the revoked connection is probed (ping/pong, still registered?, disconnect reported?); distinct = (event order class, outcome)");
+    ctx.set_rule("every sequence of {release admission gate, settle (run relay to quiescence), disconnect by connection id, disconnect by endpoint id} with exactly one release, <=2 requests and <=2 settles, with and without a bystander endpoint, with and without an older connection of the same endpoint, and with every request issued either directly or (forced schedule) while another OS thread holds the registry shard's write lock; after the sequence the gate is released if it was not, the relay is settled and the revoked connection is probed (ping/pong, still registered?, disconnect reported?); distinct = (event order class, outcome)");
     ctx.assume("gate = cfg-guarded pause_async point between authorize_with and Clients::register in Inner::accept; single-thread paused-clock runtime");
     ctx.min_outcomes(4);
     if let Some(c) = ctx.replay_case::<Case>() {
@@ -224,7 +264,9 @@ fn main() {
         }
         for bystander in [false, true] {
             for dup in [false, true] {
-                cases.push(Case { bystander, dup, events: seq.clone() });
+                for contended in [false, true] {
+                    cases.push(Case { bystander, dup, contended, events: seq.clone() });
+                }
             }
         }
     }
